@@ -78,6 +78,45 @@ def month_xml(y, m, entries, period=None):
     body = "".join("  <exchangeRate>\n    <countryName>X</countryName>\n    <countryCode>XX</countryCode>\n    <currencyName>X</currencyName>\n    <currencyCode>%s</currencyCode>\n    <rateNew>%s</rateNew>\n  </exchangeRate>\n" % (c, r) for c, r in entries)
     return XML_HEAD + '<exchangeRateMonthList Period="%s">\n%s</exchangeRateMonthList>\n' % (period, body)
 
+def pipeline_k(ctx, cases, table):
+    """K.pipeline: the extracted Model/Pipeline.v reads the ledger's TEXT (a decorated rendering: random layout, letter case, comments, line endings),
+    turns each decimal into its exact value, converts at the monthly rates, matches and summarises; the code's report of the same text is
+    compared observable by observable.  Unlike the other correspondences nothing between the text and the report is done by the check's own glue."""
+    import binascii
+    from . import props_dsl as PD
+    from .props_ledger import case_diffs
+    rng = ctx.rng
+    ex = K.exemptions()
+    cur = "CUR " + " ".join(PD.currencies())
+    ids = list(cases)[:ctx.n(250, 4000)]
+    mc = []; rc = []; texts = {}
+    for cid in ids:
+        ls = cases[cid]
+        text = PD.decorate(rng, ls) if rng.random() < 0.7 else ledger.render(ls)
+        texts[cid] = text
+        year = rng.choice([None, None, None] + sorted({K.tax_year(l.date) for l in ls}))
+        lines = [cur] + fx_lines(needed_keys(ls), table) + ["X %d %s" % (y, ledger.fr(v)) for y, v in sorted(ex.items())]
+        if year is not None: lines.append("Y %d" % year)
+        lines.append("RUN pipeline x" + binascii.hexlify(text.encode("utf-8")).decode())
+        mc.append((cid, lines)); rc.append({"id": cid, "op": "report", "dsl": text, "year": year})
+    m = run.run_model(mc); r = run.run_harness(rc)
+    for cid in ids:
+        mm, rr = m[cid], r[cid]; ls = cases[cid]
+        ctx.evaluations += 1; ctx.count("pipeline_model_outcome", "ok" if mm["ok"] else mm["stage"])
+        kd = None
+        if rr.get("stage") == "panic": continue          # judged elsewhere (C15)
+        if not mm["ok"] and mm["stage"] == "parse":
+            if rr.get("stage") != "parse": kd = "the model's reader refuses the text (line %s, %s), the code %s" % (mm["line"], mm["why"], "reports" if rr.get("ok") else rr.get("error", "")[:120])
+        elif not mm["ok"] and mm["stage"] == "fx":
+            c = compare.classify_error(rr.get("error", "")) if not rr.get("ok") else ("ok",)
+            if c[0] != "MissingFx" or c[3] != (mm["cur"], int(mm["year"]), int(mm["month"])): kd = "model: no rate for %s %s-%s; code: %s" % (mm["cur"], mm["year"], mm["month"], "reports" if rr.get("ok") else rr.get("error", "")[:120])
+        else:
+            d, _ = case_diffs(ls, mm, rr, ("accept", "error", "legs", "cost_if_no_events", "holdings", "totals", "years"))
+            if d: kd = "%s" % (d[0],)
+        if kd:
+            ctx.disagreements_checked += 1
+            ctx.violation("correspondence K.pipeline broken (text to report in one model call): %s" % kd, {"text": texts[cid], "input_dsl": ledger.render(ls), "model": mm, "code": {k: rr.get(k) for k in ("ok", "stage", "error")}, "correspondence": "K.pipeline", "case_id": cid}, found_input=False)
+
 def k_c08(ctx):
     rng = ctx.rng; table = rates()
     ctx.count("bundled_rates", len(table))
@@ -112,6 +151,7 @@ def k_c08(ctx):
         rc.append({"id": cid, "op": "to_gbp", "dsl": ledger.render(ls)})
         rep.append({"id": cid + "#rep", "op": "report", "dsl": ledger.render(ls)})
     m = run.run_model(mc); r = run.run_harness(rc + rep)
+    pipeline_k(ctx, cases, table)
     twins = []
     for cid, ls in cases.items():
         ctx.evaluations += 1; ctx.traces += 1
